@@ -264,6 +264,76 @@ Section WithHash.
       end
     end.
 
+  (* oidc RefreshAccessToken.update_service_context, the checks made before anything is recorded (OpenID Connect
+     Core 12.2): an ID Token in a refresh response is about the subject of the ID Token the session already has,
+     and a nonce in it is bound - in this client's key map - to the very state the refresh was made for *)
+  Definition refresh_bound (c : client) (st : pystr) (rec d1 : record) : res unit :=
+    match assoc (verified_name (PS "id_token")) d1 with
+    | None => Ok tt
+    | Some (VDict idt) =>
+        _ <- match assoc (verified_name (PS "id_token")) rec with
+             | None => Ok tt
+             | Some (VDict before) =>
+                 if option_eqb pyval_eqb (assoc (PS "sub") idt) (assoc (PS "sub") before) then Ok tt
+                 else Err E_ParameterError
+             | Some _ => Unmodelled
+             end ;;
+        match assoc (PS "nonce") idt with
+        | None => Ok tt
+        | Some (VStr n) =>
+            match assoc n (cl_map c) with
+            | Some s => if str_eqb s st then Ok tt else Err E_ParameterError
+            | None => Err ValueError
+            end
+        | Some _ => Unmodelled
+        end
+    | Some _ => Unmodelled
+    end.
+
+  (* StandAloneClient.refresh_access_token(st) when the token endpoint answers 200 with the JSON object r.
+     oauth_pre_construct reads the record of st (KeyError), the request needs its refresh_token; the response is
+     an oidc.AccessTokenResponse verified with the arguments of a token response (gather_verify_arguments is
+     AccessToken's); update_service_context checks refresh_bound and records the response under the key of the
+     REQUEST (Client.service_request: key = the state the caller named).  The key map is not touched. *)
+  Definition step_refresh (c : client) (st : pystr) (r : response) (now : Z) : client * res record :=
+    match db_get (cl_db c) st with
+    | Err e => (c, Err e)
+    | Unmodelled => (c, Unmodelled)
+    | Ok rec =>
+      match assoc (PS "refresh_token") rec with
+      | None => (c, Err E_MissingRequiredAttribute)
+      | Some (VStr []) => (c, Unmodelled)
+      | Some (VStr _) =>
+        match r_params r with
+        | [] => (c, Err E_ResponseError)
+        | _ =>
+          match from_dict token_resp_params (r_params r) [] with
+          | Err _ => (c, Err ValueError)
+          | Unmodelled => (c, Unmodelled)
+          | Ok [] => (c, Unmodelled)
+          | Ok d =>
+              if has_key (PS "error") d then (c, Err E_OidcServiceError) else
+              match token_response_verify lhash (svc_kwargs (cl_cfg c)) d (r_idt r) now with
+              | Err e => (c, Err e)
+              | Unmodelled => (c, Unmodelled)
+              | Ok d1 =>
+                  match refresh_bound c st rec d1 with
+                  | Err e => (c, Err e)
+                  | Unmodelled => (c, Unmodelled)
+                  | Ok _ =>
+                      match with_expires_at (resp_to_dict token_resp_params d1) now with
+                      | Ok stored => (mkClient (cl_cfg c) (db_update (cl_db c) st stored) (cl_map c), Ok stored)
+                      | Err e => (c, Err e)
+                      | Unmodelled => (c, Unmodelled)
+                      end
+                  end
+              end
+          end
+        end
+      | Some _ => (c, Unmodelled)
+      end
+    end.
+
   (* ---- several clients behind one RPHandler: issuer2rp in insertion order ---- *)
   Notation world := (list (pystr * client)).
 
@@ -272,7 +342,10 @@ Section WithHash.
   | OAuthz (i : pystr) (r : response) (now : Z)                    (* rph.finalize_auth(None, i, r) *)
   | OToken (i : pystr) (st : pystr) (r : response) (now : Z)       (* issuer2rp[i].get_tokens(st) *)
   | OUserinfo (i : pystr) (st : pystr) (u : record)                (* issuer2rp[i].get_user_info(st) *)
-  | ORoutedToken (st : pystr) (r : response) (now : Z).            (* rph.get_tokens(st): client found via the state *)
+  | ORoutedToken (st : pystr) (r : response) (now : Z)             (* rph.get_tokens(st): client found via the state *)
+  | ORefresh (i : pystr) (st : pystr) (r : response) (now : Z)     (* issuer2rp[i].refresh_access_token(st) *)
+  | ORoutedRefresh (st : pystr) (r : response) (now : Z)           (* rph.refresh_access_token(st) *)
+  | ORoutedUserinfo (st : pystr) (u : record).                     (* rph.get_user_info(st) *)
 
   Definition w_set (w : world) (i : pystr) (c : client) : world := aset i c w.
 
@@ -312,6 +385,19 @@ Section WithHash.
         | Some _ => (w, Unmodelled)
         | None => (w, Err KeyError)
         end
+    | ORefresh i st r now => on_client w i (fun c => step_refresh c st r now)
+    | ORoutedRefresh st r now =>
+        match state2issuer w st with
+        | Some (VStr i) => on_client w i (fun c => step_refresh c st r now)
+        | Some _ => (w, Unmodelled)
+        | None => (w, Err KeyError)
+        end
+    | ORoutedUserinfo st u =>
+        match state2issuer w st with
+        | Some (VStr i) => on_client w i (fun c => step_userinfo c st u)
+        | Some _ => (w, Unmodelled)
+        | None => (w, Err KeyError)
+        end
     end.
 
   Fixpoint run (w : world) (ops : list op) : world :=
@@ -333,6 +419,7 @@ Definition op_mentions (o : op) (s : pystr) : bool :=
   | OToken _ st _ _ => str_eqb st s
   | OUserinfo _ st _ => str_eqb st s
   | ORoutedToken st _ _ => str_eqb st s
+  | ORefresh _ st _ _ | ORoutedRefresh st _ _ | ORoutedUserinfo st _ => str_eqb st s
   end.
 
 (* can the operation (re)bind the key k of a client's key -> state map: a new flow drawing k as its nonce,
@@ -355,8 +442,31 @@ Definition op_draws_nonce (o : op) (k : pystr) : bool :=
 (* the client an operation is executed on *)
 Definition op_target (w : list (pystr * client)) (o : op) : option pystr :=
   match o with
-  | OBegin i _ _ _ | OAuthz i _ _ | OToken i _ _ _ | OUserinfo i _ _ => Some i
-  | ORoutedToken st _ _ => match state2issuer w st with Some (VStr i) => Some i | _ => None end
+  | OBegin i _ _ _ | OAuthz i _ _ | OToken i _ _ _ | OUserinfo i _ _ | ORefresh i _ _ _ => Some i
+  | ORoutedToken st _ _ | ORoutedRefresh st _ _ | ORoutedUserinfo st _ =>
+      match state2issuer w st with Some (VStr i) => Some i | _ => None end
+  end.
+
+(* ---- back-channel responses ----
+   The requests the relying party itself makes for a session: code exchange, refresh, user info.  What comes
+   back is whatever the HTTP layer returns; the state the REQUEST was made for is the argument of the call, never
+   a member of the response (a `state` member is legal in oauth2.AccessTokenResponse, and any JSON object may
+   carry members named state / iss / client_id / nonce / code ...). *)
+Definition backchannel_of (o : op) : option pystr :=
+  match o with
+  | OToken _ st _ _ | ORoutedToken st _ _ | ORefresh _ st _ _ | ORoutedRefresh st _ _
+  | OUserinfo _ st _ | ORoutedUserinfo st _ => Some st
+  | OBegin _ _ _ _ | OAuthz _ _ _ => None
+  end.
+(* the refresh requests *)
+Definition refresh_of (o : op) : option pystr :=
+  match o with ORefresh _ st _ _ | ORoutedRefresh st _ _ => Some st | _ => None end.
+(* the members of the response an operation delivers (as delivered, before any parsing) *)
+Definition backchannel_members (o : op) : record :=
+  match o with
+  | OToken _ _ r _ | ORoutedToken _ r _ | ORefresh _ _ r _ | ORoutedRefresh _ r _ => r_params r
+  | OUserinfo _ _ u | ORoutedUserinfo _ u => u
+  | OBegin _ _ _ _ | OAuthz _ _ _ => []
   end.
 
 Definition rec_of (w : list (pystr * client)) (j s : pystr) : option record :=
